@@ -10,7 +10,9 @@ use std::collections::HashSet;
 pub mod selftest;
 pub mod c01;
 pub mod c02;
+pub mod c07;
 pub mod c13;
+pub mod c17;
 pub mod c14;
 pub mod c15;
 pub mod c16;
@@ -231,7 +233,9 @@ pub fn run(id: &str, tier: Tier, rest: &[String]) -> i32 {
     match id {
         "C01" => c01::run(tier, part),
         "C02" => c02::run(tier, part),
+        "C07" => c07::run(tier, part),
         "C13" => c13::run(tier, part),
+        "C17" => c17::run(tier, part),
         "C14" => c14::run(tier, part),
         "C15" => c15::run(tier, part),
         "C16" => c16::run(tier, part),
@@ -257,6 +261,8 @@ pub fn replay(file: &str) -> i32 {
     match prop {
         "C01" => c01::replay(&doc["replay"]),
         "C02" => c02::replay(tier, &doc["replay"]),
+        "C07" => c07::replay(tier, &doc["replay"]),
+        "C17" => c17::replay(tier, &doc["replay"]),
         "C13" => c13::replay(&doc["replay"]),
         "C14" => c14::replay(&doc["replay"]),
         "C15" => c15::replay(&doc["replay"]),
